@@ -100,11 +100,36 @@ theorem store_reads_agree (s : Store) :
   ⟨get_eq_abs s, has_eq_abs s, getMany_spec s, NbsStore.hasMany_spec s⟩
 
 open DoltVerif.NbsStore in
-/-- for every history of put / commit (flush with de-duplication against the tables) / reopen:
-an address is readable iff it was written -/
+/-- for every history of put / commit (flush with de-duplication against the tables) / reopen /
+conjoin (selected tables replaced by one serving their concatenation) / gc (all tables replaced by one
+serving exactly the kept set): an address is readable iff it was **written and not collected since**
+(`live` = the written pairs, filtered by every later keep-set) -/
 theorem store_present_iff_written (ops : List Op) (a : Addr) :
-    ((run ops).get a).isSome ↔ a ∈ (written ops).map (·.1) := by
+    ((run ops).get a).isSome ↔ a ∈ (live ops).map (·.1) := by
   rw [get_eq_abs]; exact NbsStore.store_present_iff_written ops a
+
+open DoltVerif.NbsStore in
+/-- garbage collection is exactly the restriction of the abstract map to the keep-set: kept addresses
+read the same bytes as before, everything else is gone -/
+theorem store_gc_exact (s : Store) (keep : Addr → Bool) (a : Addr) :
+    (s.gc keep).get a = if keep a then s.get a else none := by
+  rw [get_eq_abs, get_eq_abs]; exact gc_abs s keep a
+
+open DoltVerif.NbsStore in
+/-- conjoin neither adds nor loses a chunk: the same (address, bytes) pairs are held, the same
+addresses are present -/
+theorem store_conjoin_preserves (s : Store) (sel : Source → Bool) :
+    (∀ e, e ∈ (s.conjoin sel).entries ↔ e ∈ s.entries) ∧ (∀ a, (s.conjoin sel).has a = s.has a) := by
+  refine ⟨conjoin_entries s sel, fun a => ?_⟩
+  rw [has_eq_abs, has_eq_abs]
+  have h1 := abs_isSome_iff (s.conjoin sel) a
+  have h2 := abs_isSome_iff s a
+  have hk : a ∈ (s.conjoin sel).keys ↔ a ∈ s.keys := by
+    simp only [Store.keys, List.mem_map]
+    constructor
+    · rintro ⟨e, he, rfl⟩; exact ⟨e, (conjoin_entries s sel e).mp he, rfl⟩
+    · rintro ⟨e, he, rfl⟩; exact ⟨e, (conjoin_entries s sel e).mpr he, rfl⟩
+  cases h : ((s.conjoin sel).abs a).isSome <;> cases h' : (s.abs a).isSome <;> simp_all
 
 open DoltVerif.NbsStore in
 /-- … and what is read is bytes that were written under that very address; hence, if every write is
@@ -226,7 +251,7 @@ example : [(⟨⟨5, 11⟩, false⟩ : GetRec), ⟨⟨5, 13⟩, false⟩, ⟨⟨
 #guard prollyBinSearch #[5, 5, 5, 5] 5 == some 0 && prollyBinSearch #[0, 1, 2, 18446744073709551615] 3 == some 3
 #guard (findOffsets exIdx [⟨⟨5, 12⟩, false⟩, ⟨⟨5, 13⟩, false⟩, ⟨⟨9, 11⟩, false⟩]).map (fun r => (r.2.1.map (fun o => (o.off, o.len)), r.2.2))
     == some ([(4, 6), (10, 3)], true)
-#guard (NbsStore.run [.put ⟨1, 1⟩ [1], .commit, .put ⟨1, 2⟩ [2], .put ⟨1, 1⟩ [1], .reopen, .put ⟨2, 2⟩ [3]]).getMany [⟨1, 1⟩, ⟨1, 3⟩, ⟨2, 2⟩]
+#guard (NbsStore.run [.put ⟨1, 1⟩ [1], .commit, .put ⟨3, 3⟩ [9], .gc (fun a => a.pre != 3), .conjoin (fun _ => true), .put ⟨1, 2⟩ [2], .put ⟨1, 1⟩ [1], .reopen, .put ⟨2, 2⟩ [3]]).getMany [⟨1, 1⟩, ⟨1, 3⟩, ⟨2, 2⟩]
     == [(⟨2, 2⟩, [3]), (⟨1, 1⟩, [1])]
 
 end DoltVerif.C01
